@@ -2,3 +2,38 @@
 //! changes the behavior of the rest of the crate.
 
 pub use crate::smallvec::{SmallVec, SmallVecIntoIter};
+
+use std::cell::RefCell;
+
+thread_local! {
+    static TRACE: RefCell<Vec<String>> = const { RefCell::new(Vec::new()) };
+}
+
+/// Record one decision of the optimizer (arguments and result of an arithmetic core).
+pub(crate) fn trace(entry: String) {
+    TRACE.with(|t| t.borrow_mut().push(entry));
+}
+
+/// Take all recorded decisions since the last call.
+pub fn trace_take() -> Vec<String> {
+    TRACE.with(|t| std::mem::take(&mut *t.borrow_mut()))
+}
+
+/// Text form of an expression: parts `coef*var*var` joined by `+`, `0` for the empty expression.
+pub fn fmt_expr<C: crate::CellType>(e: &crate::ir::Expr<C>) -> String {
+    let parts = e.verif_parts();
+    if parts.is_empty() {
+        return "0".to_string();
+    }
+    parts
+        .iter()
+        .map(|(c, vs)| {
+            let mut s = c.into_u64().to_string();
+            for v in vs {
+                s.push_str(&format!("*{v}"));
+            }
+            s
+        })
+        .collect::<Vec<_>>()
+        .join("+")
+}
